@@ -207,7 +207,7 @@ def _progress(outdir):
     return started, done, hang
 
 
-def run_schedules(ctx, b, sched_file, name="run", procs=8, timeout=300, watchdog_ms=4000, xpark=True):
+def run_schedules(ctx, b, sched_file, name="run", procs=8, timeout=300, watchdog_ms=2000, xpark=True, max_failures_per_job=3):
     """Executes every schedule of sched_file on the real code. -> dict(dirs, failures=[dict(sid, kind=hang|fatal, k, text)])"""
     blocks = split_blocks(Path(sched_file).read_text())
     root = b["work"] / name
@@ -225,6 +225,7 @@ def run_schedules(ctx, b, sched_file, name="run", procs=8, timeout=300, watchdog
         (d / "in.txt").write_text("\n".join("\n".join(bl) for bl in part) + "\n")
         jobs.append(dict(dir=d, ids=[bl[0].split()[1] for bl in part], skip=0))
     failures = []
+    abandoned = 0
     pending = list(jobs)
     rounds = 0
     t_end = time.time() + timeout
@@ -263,12 +264,16 @@ def run_schedules(ctx, b, sched_file, name="run", procs=8, timeout=300, watchdog
             # forget the H line, continue after the failed schedule
             pf = j["dir"] / "progress.txt"
             pf.write_text("".join(l + "\n" for l in pf.read_text().splitlines() if not l.startswith("H ")) + "D %s\n" % sid)
+            j["fails"] = j.get("fails", 0) + 1
             if sid in j["ids"]:
                 j["skip"] = j["ids"].index(sid) + 1
                 if j["skip"] < len(j["ids"]):
-                    nxt.append(j)
+                    if j["fails"] < max_failures_per_job:
+                        nxt.append(j)
+                    else:
+                        abandoned += len(j["ids"]) - j["skip"]
         pending = nxt
-    return dict(dirs=[j["dir"] for j in jobs], failures=failures, schedules=n)
+    return dict(dirs=[j["dir"] for j in jobs], failures=failures, schedules=n, abandoned=abandoned)
 
 
 class Run:
@@ -753,7 +758,7 @@ def execute(ctx, b, sched_file, name, procs=8, timeout=300, xpark=True):
                 reached[k] = reached.get(k, 0) + v
         except Exception:
             pass
-    return dict(runs=runs, chk=chk, failures=rr["failures"], reached=reached, schedules=rr["schedules"])
+    return dict(runs=runs, chk=chk, failures=rr["failures"], reached=reached, schedules=rr["schedules"], abandoned=rr["abandoned"])
 
 
 def judge(prop, runs, chk, failures, compare=True):
@@ -850,7 +855,7 @@ def run_property(ctx, prop, scenarios=None, tier=None, procs=8):
         reported += 1
         ctx.violation(_replay_obj(prop, runs[sid], text, chk.get(sid), {"violation_at": idx, "seed": ctx.seed}),
                       "real trace violates %s at event %d of schedule %s: %s" % (prop, idx, sid, text[:300]),
-                      name="t2_failing_%s.json" % sid.replace("#", "_"))
+                      name="t2_failing_%s.json" % sid.replace("#", "_").replace(":", "_"))
     for sid, text in j["known"][:1]:
         fk = [f for f in vcheck.load_known_findings() if f.get("id") == "F-LIN2" and f.get("kind") == "known" and f.get("property") == prop]
         if fk:
@@ -858,7 +863,7 @@ def run_property(ctx, prop, scenarios=None, tier=None, procs=8):
                               "keeps it until its own Release; a TryLock in the window is refused" % (sid, len(j["known"])))
         else:
             ctx.violation(_replay_obj(prop, runs[sid], text, chk.get(sid)), "real trace violates %s (schedule %s): %s" % (prop, sid, text[:300]),
-                          name="t2_failing_%s.json" % sid.replace("#", "_"))
+                          name="t2_failing_%s.json" % sid.replace("#", "_").replace(":", "_"))
     missing = [m for m in ins["missing"]]
     if not j["violations"]:
         if j["mismatches"]:
@@ -869,11 +874,13 @@ def run_property(ctx, prop, scenarios=None, tier=None, procs=8):
                         "mismatching_schedules": len(j["mismatches"]), "unplaced_yield_points": missing, "sentinels_placed": ins["sentinels"]})
             ctx.violation(obj, "model Mlk and the implementation disagree on %d schedule(s) in what %s reads (first: %s item %d, %s: %s); "
                           "no real trace violating the property was found" % (len(j["mismatches"]), prop, sid, k, kind, text[:200]),
-                          name="t2_correspondence_%s.json" % sid.replace("#", "_").replace("?", "x"), no_failing_input=True)
-        elif missing or ins["sentinels"]:
-            ctx.violation({"broken": "instrumentation", "unplaced_yield_points": missing, "sentinels_placed": ins["sentinels"], "log": ins["log"]},
-                          "the code no longer has the shape the model was written against (%s); no failing real trace was found"
-                          % ", ".join([m["id"] for m in missing] + ins["sentinels"]), name="t2_unplaced_hooks.json", no_failing_input=True)
+                          name="t2_correspondence_%s.json" % sid.replace("#", "_").replace("?", "x").replace(":", "_"), no_failing_input=True)
+        else:
+            sent = [sid_ for sid_ in ins["sentinels"] if prop in ins.get("sentinel_concerns", {}).get(sid_, [prop])]
+            if missing or sent:
+                ctx.violation({"broken": "instrumentation", "unplaced_yield_points": missing, "sentinels_placed": sent, "log": ins["log"]},
+                              "the code no longer has the shape the model was written against (%s); no failing real trace was found"
+                              % ", ".join([m["id"] for m in missing] + sent), name="t2_unplaced_hooks.json", no_failing_input=True)
     n_items = sum(len(r.items) for r in runs.values())
     distinct = len(set(tuple(" ".join(f) for _, f in r.items) for r in runs.values()))
     tie.update({
@@ -884,7 +891,7 @@ def run_property(ctx, prop, scenarios=None, tier=None, procs=8):
         "mismatches_in_projection": len(j["mismatches"]), "schedules_differing_in_labels_only": j["label_only"], "projection": sorted(PROJ.get(prop, [])), "schedules_failing_oracle": len(set(v[0] for v in j["violations"])),
         "known_finding_reproductions": len(j["known"]), "hangs_or_fatal": len(failures), "yield_points_placed": len(ins["placed"]),
         "yield_points_missing": [m["id"] for m in missing], "sentinels_placed": ins["sentinels"], "oracle": prop,
-        "incomplete_schedules": sum(1 for r in runs.values() if not r.complete), "wall_s": round(time.time() - t0, 1)})
+        "incomplete_schedules": sum(1 for r in runs.values() if not r.complete), "schedules_abandoned_after_repeated_hangs": e.get("abandoned", 0), "wall_s": round(time.time() - t0, 1)})
     ctx.coverage["traces_validated_against_impl"] = ctx.coverage.get("traces_validated_against_impl", 0) + len(runs)
     ctx.coverage["evaluations"] = ctx.coverage.get("evaluations", 0) + len(runs)
     if runs and len(ctx.coverage["samples"]) < 3:
